@@ -17,7 +17,7 @@ for sid in ids:
         continue
     meta = json.load(open(mp))
     prop = meta['property']
-    checks = [prop] + EXTRA.get(sid, EXTRA.get(prop, []))
+    checks = [prop] + ([] if os.environ.get('SEEDMATRIX_PRIMARY_ONLY') else EXTRA.get(sid, EXTRA.get(prop, [])))
     r = subprocess.run([sys.executable, os.path.join(HERE, 'harness', 'seedtest.py'), os.path.join(d, 'patch.diff'), tier, *checks],
                        capture_output=True, text=True)
     det = meta.setdefault('detected_by', {})
